@@ -596,6 +596,22 @@ p01 = Prop("C01", "decode(encode(x)) == x",
 p01.technique = "symbolic execution of the MIR of both state machines composed (decoder run on the encoder's symbolic output), SMT queries (z3 + cvc5)"
 reg(p01)
 
+C06_Q = [c08_job(4, 0, sched=1, timeout=800), c08_job(6, 4, sched=0, timeout=800), c17_job(3, "fresh"), c17_job(1, "fresh")]
+C06_T = [c08_job(4, 0), c08_job(4, 2), c08_job(5, 3), c08_job(6, 4), c17_job(4, "fresh"), c17_job(3, "fresh"), c17_job(1, "fresh"), c17_job(0, "fresh"), c17_job(3, "nearly_full")]
+p06 = Prop("C06", "StreamReader returns exactly the valid delimited records",
+           quick=[codecx.StreamRecords("quick")] + C06_Q,
+           thorough=[codecx.StreamRecords("thorough")] + C06_T,
+           bounds_quick="assume/guarantee in three layers. (1) Engine X: StreamReader::next_record_bytes + chunk_judge (MIR), called until None, with StreamChunker::pump replaced by its tiling contract and EVERY admissible chunking explored: every byte stream of length <= 5 (no limits), length 4 with max_record_size 0/1/2 and every limit_offset, and 9-11 byte streams with fixed delimiters and symbolic payload/garbage; result == reference record splitter (records, exact ranges, order, end of stream). (2) Engine K: the real pump satisfies that contract for one step from EVERY chunker state (two C08 jobs: block size 0 with a short read / interrupted call, block size 4). (3) Engine K: ByteArena::read_n under every reader script of <= 4 actions (two C17 jobs)",
+           bounds_thorough="streams <= 7 bytes, limits on streams of 4-6 bytes, four C08 jobs (block sizes 0,2,3,4 with 2 symbolic reader events), five C17 jobs",
+           outside=["hard I/O errors from the reader (the contract stub never fails; the property quantifies over short reads and interrupted calls, which the C08/C17 layers cover)",
+                    "streams longer than the stated lengths; records longer than a few bytes (the decoder at production limits on long chunks is C07's windowed jobs)",
+                    "block sizes above 6 (C08's bound); the real OwningIovec behind the record (take/clear/total_size are modelled on the event log; C03/C20 decide parts of the real ones)",
+                    "last_sentinel_offset is not compared"],
+           assumptions=X_ASSUME + ["the three layers compose: layer 1 assumes exactly the chunk contract that layer 2 proves per step (tiling, Sentinel iff FE FD at the cursor, Data chunks non-empty, stuff-free and never separating an FE from its FD), for every chunk length the contract allows - a superset of what any read schedule / block size can produce"],
+           trusted=X_TRUST)
+p06.technique = "symbolic execution of the MIR of StreamReader::next_record_bytes over a contract stub of StreamChunker::pump, differential SMT queries (z3 + cvc5) against a reference record splitter; bounded model checking (Kani/CBMC) of the real pump step and of ByteArena::read_n"
+reg(p06)
+
 p09 = Prop("C09", "incremental drain: bounded lag for the Encoder, none for the Decoder",
            quick=[codecx.EncoderVsReference("quick"), codecx.DecoderVsReference("quick"), codecx.ApiProduction("quick", pid="C09", name="c09::public_api_production_limits[mirx]"),
                   iov_job("k8q_consume_clamped_to_stable_prefix")],
